@@ -432,7 +432,7 @@ func tplNames(r *vk.Run) []string {
 		return strings.Split(e, ",")
 	}
 	thorough := r != nil && r.Thorough()
-	q := []string{"empty", "vote1", "vote2+transfer", "neo-transfer", "policy-fee+tx", "u-storage2", "fault-between", "caught-callee", "destroy-ub", "unregister1"}
+	q := []string{"empty", "vote1", "vote2+transfer", "neo-transfer", "policy-fee+tx", "u-storage2", "fault-between", "caught-callee", "destroy-ub", "unregister1", "designate-notary+use"}
 	if thorough {
 		q = append(q, "gas-transfer", "unvote1", "register2", "policy-storage-price", "block-account3", "u-storage", "deploy-uc", "designate-oracle", "designate-notary", "notary-deposit", "gas-to-contract", "oracle-request", "max-traceable", "exec-fee")
 	}
